@@ -328,7 +328,7 @@ func init() {
 			sim.RunHistory(s, c12Profile, []sim.Monitor{&c12mon{stats: c.Stats, lastTOTP: map[string]string{}}}, c.Stats, unit)
 		},
 		Floors: func(t string) map[string]int {
-			return map[string]int{"otp-accepted": 80, "otp-replay-rejected:spent": 30, "otp-replay-rejected:dead": 5, "recovery-accepted": 40, "recovery-replay-rejected": 30, "sms-code-accepted": 30, "totp-accepted": 30, "totp-replay-rejected": 5}
+			return map[string]int{"otp-accepted": 80, "otp-replay-rejected:spent": 30, "otp-replay-rejected:dead": 5, "recovery-accepted": 40, "recovery-replay-rejected": 30, "sms-code-accepted": 30, "totp-accepted": 30, "totp-replay-rejected": 3}
 		},
 		Assumptions: []string{"storage behaves like a database: every Load returns a copy, only Save persists", "an OTP presented in a request that was blocked (lock) or parked is treated as consumed-or-not at the library's discretion (state 'limbo', no demand)"},
 	})
